@@ -14,6 +14,7 @@ import Compress.Proofs.XFlateGlue
 import Compress.Proofs.XFlateReader
 import Compress.Proofs.FlateRefine
 import Compress.Proofs.FlateBound
+import Compress.Proofs.XFlateTotal
 
 namespace Compress.Props.C08
 open Compress Compress.Window Compress.XFlate Compress.Flate Compress.Proofs.FlateRefine
@@ -58,5 +59,23 @@ theorem C08_xflate_read_returns (L : Layout) (plain : List UInt8) (wf : WellForm
     ∃ s' data e, read .fixed L s n adv (readFuel L) = some (s', data, e) ∧
       ReadOK plain s.offset n data e ∧ Inv L s' ∧ s'.offset = s.offset + data.length ∧ s'.err = e :=
   Compress.Proofs.XFlateReader.read_refines L plain wf s inv herr n adv
+
+open Compress.Proofs.XFlateTotal Compress Compress.XFlate in
+/-- whatever the stream holds, the records Reader.Reset accepts are sorted with non-negative offsets. -/
+theorem C08_open_records_sorted (crc : List UInt8 → Nat) (stream : List UInt8) (r : OpenResult)
+    (h : openIndex .fixed crc stream = .ok r) : RecsOK r.recs :=
+  Compress.Proofs.XFlateTotal.open_recsOK crc stream r h
+
+open Compress.Proofs.XFlateTotal Compress Compress.XFlate in
+/-- **xflate.Reader.Read returns on ANY accepted byte string**: for every layout with sorted records (segment contents arbitrary: corrupt, truncated, wrong sizes, final blocks), every reachable state, buffer length and inflater behaviour, the loop ends within one iteration per segment plus three. -/
+theorem C08_xflate_read_total (L : Layout) (h : RecsOK L.recs) (s : RState) (inv : SInv L s) (n : Nat) (adv : Adv) :
+    ∃ s' data e, read .fixed L s n adv (readFuel L) = some (s', data, e) ∧ SInv L s' ∧ data.length ≤ n :=
+  Compress.Proofs.XFlateTotal.read_returns L h s inv n adv
+
+open Compress.Proofs.XFlateTotal Compress Compress.XFlate in
+/-- no sequence of Seek and Read calls on an opened reader hangs. -/
+theorem C08_xflate_never_hangs (L : Layout) (h : RecsOK L.recs) (ops : List ROp) :
+    ROut.hang ∉ runOps .fixed L (opened .fixed L) ops :=
+  Compress.Proofs.XFlateTotal.never_hangs L h ops
 
 end Compress.Props.C08
